@@ -133,6 +133,15 @@ def disj(t, pol=True):
     return [(a, not p) for a, p in conj(t, not pol)]
 
 
+def as_disj(a, p):
+    """A literal as a disjunction of literals, or None: (x|y, +) -> [x, y];  (x&y, -) -> [~x, ~y]."""
+    if p and isinstance(a, Op) and a.op in ("|", "or"):
+        return disj(a)
+    if (not p) and isinstance(a, Op) and a.op in ("&", "and"):
+        return [(x, not q) for x, q in conj(a)]
+    return None
+
+
 def lkey(lit):
     a, p = lit
     return key(a) if p else "~" + key(a)
